@@ -174,3 +174,59 @@ Definition spec_handle (ef : elf) (bias : Z) (m : emap) (addrs : list Z) (rs : l
   | a0 :: _, r0 :: _ => spec_obj_addr_live ef bias m a0 r0
   | _, _ => true
   end.
+
+(* ---------------- conversations with a symbolizer tool ---------------- *)
+(* What the tool said about ONE link address, as frames: the pairs it printed, unknown ones dropped. *)
+Definition a2l_expected (tool : a2l_tool) (x : Z) : list frame :=
+  filter (fun f => negb (frame_empty f)) (map a2l_parse_pair (a2l_tool_pairs tool x)).
+
+Definition frame_loc_eqb (a b : frame) : bool :=
+  String.eqb (fr_file a) (fr_file b) && (fr_line a =? fr_line b).
+Fixpoint frames_loc_eqb (a b : list frame) : bool :=
+  match a, b with
+  | [], [] => true
+  | x :: a', y :: b' => frame_loc_eqb x y && frames_loc_eqb a' b'
+  | _, _ => false
+  end.
+
+(* The frames reported for an address are the ones the tool printed for THAT address minus base
+   (= its link address), whatever was asked before on the same pipe; function names may be repaired
+   from the attached nm table as [spec_a2l_fixup] allows. *)
+Definition spec_conv_answer (tool : a2l_tool) (base : Z) (nm : option (list sym)) (a : Z) (r : res (list frame)) : bool :=
+  match r with
+  | Err _ => false
+  | Ok st =>
+      let e := a2l_expected tool (tool_addr base a) in
+      frames_loc_eqb st e &&
+      match nm with
+      | None => strs_eqb (map fr_func st) (map fr_func e)
+      | Some tab => spec_a2l_fixup tab a (map fr_func e) (map fr_func st)
+      end
+  end.
+Fixpoint spec_conv (tool : a2l_tool) (base : Z) (nm : option (list sym)) (addrs : list Z) (rs : list (res (list frame))) : bool :=
+  match addrs, rs with
+  | [], [] => true
+  | a :: ar, r :: rr => spec_conv_answer tool base nm a r && spec_conv tool base nm ar rr
+  | _, _ => false
+  end.
+
+(* a well-behaved tool: no function line looks like an address echo, nothing known about the sentinel *)
+Definition a2l_tool_ok (tool : a2l_tool) : Prop :=
+  tool max_u64 = [] /\ forall x p, In p (tool x) -> has_prefix "0x" (fst p) = false.
+
+(* llvm-symbolizer: the symbols of the line answering THAT address minus base *)
+Definition frame_eqb (a b : frame) : bool := String.eqb (fr_func a) (fr_func b) && frame_loc_eqb a b.
+Fixpoint frames_eqb (a b : list frame) : bool :=
+  match a, b with
+  | [], [] => true
+  | x :: a', y :: b' => frame_eqb x y && frames_eqb a' b'
+  | _, _ => false
+  end.
+Fixpoint spec_conv_llvm (tool : llvm_tool) (base : Z) (addrs : list Z) (rs : list (res (list frame))) : bool :=
+  match addrs, rs with
+  | [], [] => true
+  | a :: ar, r :: rr =>
+      match r with Ok st => frames_eqb st (llvm_answer tool (tool_addr base a)) | Err _ => false end &&
+      spec_conv_llvm tool base ar rr
+  | _, _ => false
+  end.
